@@ -197,6 +197,14 @@ theorem C12_toDag_only_orients (p : PD) (res : List (Var × Var)) (h : p.toDag =
     ∀ e ∈ res, e ∈ p.directed ∨ e ∈ p.undirected.map normPair ∨ (e.2, e.1) ∈ p.undirected.map normPair :=
   PD.toDag_only_orients p res h
 
+/-- **`PDAG.to_dag` loses no adjacency**: every undirected edge of the PDAG appears in the result in one of its two
+    orientations, whenever the loop succeeds - with the two theorems above, the result is an orientation of exactly the
+    PDAG's adjacencies that keeps its directed edges, and by `C12_toDag_acyclic` it is a DAG -/
+theorem C12_toDag_orients_all (p : PD) (res : List (Var × Var))
+    (hund : ∀ e ∈ p.undirected.map normPair, e.1 ∈ p.nodes) (h : p.toDag = some res) :
+    ∀ e ∈ p.undirected.map normPair, e ∈ res ∨ (e.2, e.1) ∈ res :=
+  PD.toDag_orients_all p res hund h
+
 /-- non-vacuity: the chain PDAG 0 - 1 - 2 is converted -/
 example : (PD.mk [0, 1, 2] [] [(0, 1), (1, 2)]).toDag = some [(1, 0), (2, 1)] := by decide
 
